@@ -26,15 +26,19 @@ import collections
 import functools
 import re
 
-_field_name_pattern = r'''
+_field_name_template = r'''
     (?: \d+ | [^\W\d]\w* )
     (?:
         [.] [^\W\d]\w* |
-        \[ [^]]+ \]
+        \[ %s+ \]
     )*
 '''
 
-_simple_field_pattern = '[{] (?:' + _field_name_pattern + ') ? [}]'
+_field_name_pattern = _field_name_template % '[^]]'
+
+# Python looks for the end of a format specification by counting braces,
+# so a nested field cannot have a brace inside its [index]:
+_simple_field_pattern = '[{] (?:' + _field_name_template % '[^]{}]' + ') ? [}]'
 
 _simple_field_re = re.compile(_simple_field_pattern, re.VERBOSE)
 
